@@ -108,7 +108,8 @@ def run_case(case):
             rel = FakeRel(sched)
             res["ret"] = app.run_forever(ping_interval=I, ping_timeout=T, ping_payload=payload, dispatcher=rel)
             rel.dispatch(until=sched.now + horizon_t + 1.0)
-            res["t_end"] = sched.now
+            # the run ends when the connection has been torn down (the third-party loop itself may go on)
+            res["t_end"] = next((e[0] for e in trace if e[1] == "close"), sched.now)
             for t, e in rel.error_log:
                 trace.append((t, "error", type(e).__name__, str(e)))
             rel.dispatch(until=sched.now + 3 * I + 1)
@@ -192,7 +193,7 @@ def _cls(obs, case, npings):
     return obs
 
 
-TS = [1, 2, 3, 5]
+TS = [0.25, 1, 2, 3, 5]  # (a sub-second timeout is below any fixed polling period an implementation might fall back to)
 
 
 def ratios(T):
